@@ -37,6 +37,8 @@ for _f in sorted(glob.glob(os.path.join(os.path.dirname(os.path.abspath(__file__
 ENGINES = [
     {"name": "E1 clustersim", "path": "sim/sim", "serves_properties": ["C02"],
      "kind_free_text": "real rqlite nodes (store+raft+bbolt+SQLite+cluster service/client+proxy+mux) in one testing/synctest bubble over a simulated network; one event per scheduler step chosen by a seeded PRNG"},
+    {"name": "E3 schedsim", "path": "sim/sched", "serves_properties": ["C11", "C24", "C31", "C34", "C36"],
+     "kind_free_text": "seeded cooperative scheduler inside a testing/synctest bubble: harness tasks and adopted rqlite goroutines park at yield points (harness calls, verifhook.Yield in queue/throttler/snapshot store), one parked task or a clock quantum is chosen per step by the run's PRNG; mutexes held across blocking points are modelled"},
 ]
 
 NOT_APPLICABLE = {
